@@ -15,6 +15,27 @@ N6  explicit updates        x = x + e / x = x | e / x = x & e               ->  
 N7  local closures          zero-argument local `def g(): return E` used only by calls  ->  E inlined at the call sites;
                             zero-argument local `def g(): <stmts>` (no return) called as a statement -> statements spliced in
 N8  list(genexp)            list(E for ..)                                  ->  [E for ..]
+N9  if/else same name       if C: x = A else: x = B                         ->  x = A if C else B
+N10-N12 single-name targets over enumerate/zip -> tuple targets; closures with parameters inlined (single return)
+N13 copy propagation        x = E (x bound once, E pure, nothing kills it)  ->  E at the later reads of the same block
+N14 private helpers         module-level `def _h(p): return E` (E pure, or any single expression when the call passes plain
+                            names) inlined at its calls; a helper no longer referenced nor imported anywhere is dropped
+N15 single-use methods      a private, non-anchor method used once as `self.m(..)` in a statement is spliced into its caller
+N16 parallel assignment     a, b = (x, y)  (no cross dependency)            ->  a = x; b = y
+N17 helper splicing         private functions / non-anchor methods only called at statement level (<= 4 uses): body spliced,
+                            arguments bound in evaluation order, locals renamed; early returns only into `return f(..)`; a
+                            single return ending a chain of `with` blocks becomes the assignment inside it
+N18 forward substitution    t = E; S(t)  (t read once, S reaches the read before anything with an effect)  ->  S(E); also into
+                            the first statement of a following `with f(<scalars>) as e:` (b) and into the two first uses on
+                            exclusive paths of a following `if` (c)
+N19 f(**{"k": v})           ->  f(k=v)
+N20 local annotations       x: T = v / self.a: T = v inside functions      ->  x = v / self.a = v
+N21 tail duplication        if c: A else: B; return E                       ->  if c: A; return E else: B; return E
+N22 else after exit         if c: <leaves> else: B                          ->  if c: <leaves>; B
+N23 extend/append branches  if c: X.extend(a) else: X.append(b)             ->  t = c; X.extend(a if t else [b])
+N24 pd.DataFrame(data=X)    ->  pd.DataFrame(X)
+N25 keyword -> positional   leading keyword arguments of package callees (names defined once) in parameter order
+N26 tuple streams           [f(g, *t) for t in ((a, b) for ..)]             ->  [f(g, a, b) for ..]  (a, b effect-free)
 """
 from __future__ import annotations
 
